@@ -32,6 +32,9 @@ func runC03(c *core.Ctx) {
 	c.Clause("C03.10 what a leader hands to its state machine is on its own disk first (a restart would otherwise feed a different command at that position)")
 	h.leaderFlushBeforeAdvance("C03.10 leader-flush")
 	h.openStorageRebuild("C03.11 restart-rebuild")
+	c.Clause("C03.12 upstream of one history: one leader per term — only replies of the current election are counted")
+	h.leaderOnlyByMajority("C03.12 votes-of-this-election")
+	h.candidateReleaseRetiresChannel("C03.12b stale-replies-not-counted")
 }
 
 func runC07(c *core.Ctx) {
@@ -56,5 +59,7 @@ func runC07(c *core.Ctx) {
 	h.majorityOverVoters("C07.8b majority")
 	c.Clause("C07.9 a completed task shows its outcome: the result is stored before done is closed; the flush that precedes every acknowledgement covers the index it is asked for")
 	h.taskReplyPublishes("C07.9 task-reply")
+	h.canCommitSummary("C07.11 canCommit-summary")
+	h.applyInOrder("C07.12 applied-position")
 	h.leaderFlushBeforeAdvance("C07.10 leader-flush")
 }
